@@ -573,10 +573,22 @@ func c07Baseline(seed string, crlf bool) c07Out {
 // reported, the run is not exhaustive) instead of queueing up behind the lock for ever.
 var c07Hung atomic.Bool
 
+// the case that hung, with its verdict: asked about it again in the same process (the engine re-executes every
+// failure before reporting it) the verdict is repeated - the parser is still busy with it; `mc replay` runs it afresh
+var c07HungCase, c07HungSig, c07HungDetail string
+
 func c07Eval(c c07Case) (ok bool, sig, detail string) {
 	if c07Hung.Load() {
+		if mustJSON(c) == c07HungCase {
+			return false, c07HungSig, c07HungDetail
+		}
 		return true, "", ""
 	}
+	defer func() {
+		if !ok && strings.HasPrefix(sig, "hang") && c07HungCase == "" {
+			c07HungCase, c07HungSig, c07HungDetail = mustJSON(c), sig, detail
+		}
+	}()
 	c07LoadSeeds()
 	if c.Kind == "string" {
 		return c07EvalString(c)
